@@ -886,6 +886,19 @@ func rulePick(c *Ctx, rule string) {
 		return
 	}
 	c.check(inc != nil && len(sts) == 2, rule, "cursor advanced by exactly one", posOf(w, fn), "idx++", "the cursor is not advanced by exactly one per pick (n consecutive RPCs would not use each of n tunnels once)")
+	// exclusive-branches form: if next := idx + 1; next < len(chans) { idx = next } else { idx = 0 } — the two stores sit on the
+	// two edges of one test of the incremented value against len(chans); the keeping edge must know next < len
+	exclusive := false
+	if inc != nil && wrap != nil && inc.Block() != wrap.Block() && len(inc.Block().Preds) == 1 && len(wrap.Block().Preds) == 1 && inc.Block().Preds[0] == wrap.Block().Preds[0] &&
+		len(inc.Block().Succs) == 1 && len(wrap.Block().Succs) == 1 && inc.Block().Succs[0] == wrap.Block().Succs[0] {
+		for _, f := range factsAt(inc) {
+			if x, op, y, ok := cmpFact(f); ok && x == inc.Val && op == token.LSS {
+				if lc, isC := y.(*ssa.Call); isC && calleeName(lc) == "builtin.len" && isFieldLoad(lc.Call.Args[0], chans) {
+					exclusive = true
+				}
+			}
+		}
+	}
 	okWrap := false
 	if wrap != nil {
 		for _, f := range factsAt(wrap) {
@@ -893,7 +906,7 @@ func rulePick(c *Ctx, rule string) {
 			if !ok {
 				continue
 			}
-			if isFieldLoad(x, idx) {
+			if isFieldLoad(x, idx) || (exclusive && x == inc.Val) {
 				if lc, isC := y.(*ssa.Call); isC && calleeName(lc) == "builtin.len" && isFieldLoad(lc.Call.Args[0], chans) {
 					if op == token.GEQ {
 						okWrap = true
@@ -907,7 +920,7 @@ func rulePick(c *Ctx, rule string) {
 				}
 			}
 		}
-		if inc != nil && !dominates(inc, wrap) {
+		if inc != nil && !dominates(inc, wrap) && !exclusive {
 			okWrap = false
 		}
 	}
@@ -920,6 +933,11 @@ func rulePick(c *Ctx, rule string) {
 		}
 	})
 	okIdx := ia != nil && isFieldLoad(ia.Index, idx) && inc != nil && dominates(inc, ia)
+	if !okIdx && exclusive && ia != nil && isFieldLoad(ia.Index, idx) {
+		// the read follows the join of the two stores
+		join := inc.Block().Succs[0]
+		okIdx = join == ia.Block() || join.Dominates(ia.Block())
+	}
 	if okIdx && wrap != nil {
 		// the load of idx used as index happens after the wrap block joins
 		okIdx = !reaches(ia, wrap)
